@@ -3,6 +3,7 @@ package ramfs
 // C18 - the in-memory file server is a tree of byte arrays and never crashes.
 
 import (
+	"bytes"
 	"context"
 
 	p9p "github.com/frobnitzem/go-p9p"
@@ -83,3 +84,395 @@ func vC18RW(maxFile, maxBuf int) {
 
 func VerifC18_RWQuick()    { vC18RW(3, 2) }
 func VerifC18_RWThorough() { vC18RW(5, 4) }
+
+// ---------------------------------------------------------------------------
+// Tree: operation sequences through SFileSys(fs) against a model tree.
+
+type vNode struct {
+	dir    bool
+	names  []string
+	kids   map[string]*vNode
+	data   []byte
+	linked bool // still linked from its parent
+}
+
+type vFidM struct {
+	node  *vNode
+	chain []*vNode // ancestors, root first (empty for the root itself)
+	open  bool
+}
+
+type vTree struct {
+	fs   *fServer
+	sess p9p.Session
+	root *vNode
+	fids map[p9p.Fid]*vFidM
+}
+
+func vNewTree() *vTree {
+	t := &vTree{fs: vNewServer(), fids: map[p9p.Fid]*vFidM{}}
+	t.sess = p9p.SFileSys(t.fs)
+	t.root = &vNode{dir: true, kids: map[string]*vNode{}, linked: true}
+	return t
+}
+
+func (n *vNode) unlink(name string) {
+	delete(n.kids, name)
+	var out []string
+	for _, s := range n.names {
+		if s != name {
+			out = append(out, s)
+		}
+	}
+	n.names = out
+}
+
+var vNameSets = [][]string{{}, {"a"}, {"b"}, {".."}, {"a", "b"}, {"..", "a"}, {"a", ".."}}
+
+// vTreeOp performs one operation and checks it against the model.
+func (t *vTree) vTreeOp() {
+	op := ndChoice("op", 7)
+	f := p9p.Fid(1 + ndChoice("fid", 3))
+	m := t.fids[f]
+	switch op {
+	case 0: // walk / clone
+		g := p9p.Fid(1 + ndChoice("newfid", 3))
+		names := vNameSets[ndChoice("names", len(vNameSets))]
+		if m != nil && len(names) > 0 && !m.node.dir {
+			return // walking names from a file fid: not part of this model
+		}
+		if m != nil && m.open && g == f {
+			return // walking an open fid in place: forbidden by 9P, not part of this model
+		}
+		qids, err := t.sess.Walk(vBG, f, g, names...)
+		// model
+		valid := p9p.ValidPath(names) >= 0
+		switch {
+		case !valid || m == nil:
+			vAssert(err != nil, "C18: walk from an unbound fid / with an unsafe list fails")
+		case g != f && t.fids[g] != nil:
+			vAssert(err != nil, "C18: walk onto a bound fid fails")
+		default:
+			node := m.node
+			chain := append([]*vNode(nil), m.chain...)
+			found := 0
+			bad := false
+			for _, nm := range names {
+				if nm == ".." {
+					if len(chain) == 0 {
+						bad = true
+						break
+					}
+					node = chain[len(chain)-1]
+					chain = chain[:len(chain)-1]
+					found++
+					continue
+				}
+				k := node.kids[nm]
+				if k == nil {
+					break
+				}
+				chain = append(chain, node)
+				node = k
+				found++
+			}
+			if bad || (len(names) > 0 && found == 0) {
+				vAssert(err != nil, "C18: a walk whose first step fails (or climbs above the root) is an error")
+			} else {
+				vAssert(err == nil, "C18: walks (including '..') resolve as in the model tree")
+				vAssert(len(qids) == found, "C18: the walk finds exactly the elements present in the model tree")
+				if found == len(names) && (len(names) > 0 || g != f) {
+					t.fids[g] = &vFidM{node: node, chain: chain}
+					vReach("c18.walk.ok")
+				}
+			}
+		}
+	case 1: // create
+		name := []string{"a", "b"}[ndChoice("cname", 2)]
+		isDir := ndChoice("cdir", 2) == 1
+		perm := uint32(0644)
+		if isDir {
+			perm = p9p.DMDIR | 0755
+		}
+		_, _, err := t.sess.Create(vBG, f, name, perm, p9p.ORDWR)
+		switch {
+		case m == nil || !m.node.dir:
+			vAssert(err != nil, "C18: create needs a bound directory fid")
+		case m.node.kids[name] != nil:
+			vAssert(err != nil, "C18: create of an existing name fails")
+		case !m.node.linked && m.node != t.root:
+			// creating inside a removed directory: outcome not specified by the model
+			if err == nil {
+				k := &vNode{dir: isDir, kids: map[string]*vNode{}, linked: true}
+				m.node.kids[name] = k
+				m.node.names = append(m.node.names, name)
+				t.fids[f] = &vFidM{node: k, chain: append(append([]*vNode(nil), m.chain...), m.node), open: true}
+			}
+		default:
+			vAssert(err == nil, "C18: create of a fresh name in a directory succeeds")
+			k := &vNode{dir: isDir, kids: map[string]*vNode{}, linked: true}
+			m.node.kids[name] = k
+			m.node.names = append(m.node.names, name)
+			t.fids[f] = &vFidM{node: k, chain: append(append([]*vNode(nil), m.chain...), m.node), open: true}
+			vReach("c18.create.ok")
+		}
+	case 2: // write
+		data := ndBytes("wdata", 1+ndChoice("wlen", 2))
+		off := ndI64("woff")
+		n, err := t.sess.Write(vBG, f, data, off)
+		if m == nil || !m.open || m.node.dir {
+			vAssert(err != nil, "C18: write needs an open file fid")
+			return
+		}
+		if vAnd(off >= 0, off <= int64(len(m.node.data))) {
+			o := vConcrete(int(off))
+			vAssert(err == nil && n == len(data), "C18: write inside or at the end of the file succeeds")
+			for i := range data {
+				if o+i < len(m.node.data) {
+					m.node.data[o+i] = data[i]
+				} else {
+					m.node.data = append(m.node.data, data[i])
+				}
+			}
+			vReach("c18.write.ok")
+		} else {
+			vAssert(err != nil, "C18: write outside the file fails")
+		}
+	case 3: // read
+		cnt := ndChoice("rcount", 4)
+		off := ndI64("roff")
+		buf := make([]byte, cnt)
+		n, err := t.sess.Read(vBG, f, buf, off)
+		if m == nil || !m.open {
+			vAssert(err != nil, "C18: read needs an open fid")
+			return
+		}
+		if m.node.dir {
+			return // directory reads are checked by the listing operation
+		}
+		if vAnd(off >= 0, off <= int64(len(m.node.data))) {
+			o := vConcrete(int(off))
+			want := len(m.node.data) - o
+			if want > cnt {
+				want = cnt
+			}
+			vAssert(err == nil && n == want, "C18: read returns min(count, size-offset) bytes")
+			vAssertEqBytes(buf[:n], m.node.data[o:o+want], "C18: file reads return exactly the bytes most recently written at those positions")
+			vReach("c18.read.ok")
+		} else {
+			vAssert(n == 0, "C18: read outside the file returns nothing")
+		}
+	case 4: // remove
+		err := t.sess.Remove(vBG, f)
+		if m == nil {
+			vAssert(err != nil, "C18: remove of an unbound fid fails")
+			return
+		}
+		delete(t.fids, f)
+		if len(m.chain) > 0 && m.node.linked {
+			parent := m.chain[len(m.chain)-1]
+			for _, nm := range parent.names {
+				if parent.kids[nm] == m.node {
+					parent.unlink(nm)
+					m.node.linked = false
+				}
+			}
+			vReach("c18.remove.ok")
+		}
+	case 5: // clunk
+		err := t.sess.Clunk(vBG, f)
+		if m == nil {
+			vAssert(err != nil, "C18: clunk of an unbound fid fails")
+			return
+		}
+		delete(t.fids, f)
+	case 6: // listing through a fresh fid
+		g := p9p.Fid(9)
+		if m == nil || !m.node.dir {
+			return
+		}
+		_, err := t.sess.Walk(vBG, f, g)
+		vAssert(err == nil, "C18: clone for listing")
+		_, _, err = t.sess.Open(vBG, g, p9p.OREAD)
+		vAssert(err == nil, "C18: open directory for listing")
+		buf := make([]byte, 4096)
+		n, err := t.sess.Read(vBG, g, buf, 0)
+		vAssert(err == nil, "C18: read directory")
+		got := map[string]int{}
+		rd := bytesReader(buf[:n])
+		cnt := 0
+		for rd.Len() > 0 {
+			var d p9p.Dir
+			if p9p.DecodeDir(p9p.NewCodec(), rd, &d) != nil {
+				break
+			}
+			got[d.Name]++
+			cnt++
+		}
+		vAssert(got[".."] == 1, "C18: a listing contains '..'")
+		if m.node.linked || m.node == t.root {
+			for _, nm := range m.node.names {
+				vAssert(got[nm] == 1, "C18: a listing contains every created and not yet removed child")
+			}
+			vAssert(cnt == len(m.node.names)+1, "C18: a listing contains exactly the children plus '..'")
+		}
+		t.sess.Clunk(vBG, g)
+		vReach("c18.list")
+	}
+}
+
+// validate: every node's reference count equals its number of parent links
+func (t *vTree) vValidate() {
+	cnt := map[*FileEnt]int{t.fs.root: 1}
+	todo := []*FileEnt{t.fs.root}
+	for len(todo) > 0 {
+		f := todo[len(todo)-1]
+		todo = todo[:len(todo)-1]
+		if !f.IsDir() {
+			vAssert(f.children == nil, "C18: a file has no children")
+		}
+		for _, c := range f.children {
+			if _, ok := cnt[c]; !ok {
+				cnt[c] = 1
+				todo = append(todo, c)
+			} else {
+				cnt[c]++
+			}
+		}
+	}
+	for f, n := range cnt {
+		vAssert(f.nref == n, "C18: when all fids are clunked every node's reference count equals its number of parent links")
+	}
+}
+
+func vC18Tree(steps int) {
+	t := vNewTree()
+	_, err := t.sess.Attach(vBG, 1, p9p.NOFID, "u", "")
+	vAssert(err == nil, "C18: attach")
+	t.fids[1] = &vFidM{node: t.root}
+	for i := 0; i < steps; i++ {
+		t.vTreeOp()
+	}
+	for f := range t.fids {
+		t.sess.Clunk(vBG, f)
+	}
+	t.vValidate()
+	vReach("c18.tree")
+}
+
+func VerifC18_TreeQuick()    { vC18Tree(2) }
+func VerifC18_TreeThorough() { vC18Tree(3) }
+
+// A scripted history (data symbolic): remove through a stale handle after the
+// name was re-created must not make the new file disappear.
+func VerifC18_StaleRemove() {
+	t := vNewTree()
+	s := t.sess
+	s.Attach(vBG, 1, p9p.NOFID, "u", "")
+	s.Walk(vBG, 1, 2)                               // fid2 = clone of root
+	_, _, err := s.Create(vBG, 2, "a", 0644, p9p.ORDWR) // fid2 = /a (old)
+	vAssert(err == nil, "C18: create a")
+	_, err = s.Walk(vBG, 1, 3, "a") // fid3 = second handle on old /a
+	vAssert(err == nil, "C18: walk to a")
+	vAssert(s.Remove(vBG, 2) == nil, "C18: remove a")
+	s.Walk(vBG, 1, 2)
+	_, _, err = s.Create(vBG, 2, "a", 0644, p9p.ORDWR) // a new /a
+	vAssert(err == nil, "C18: re-create a")
+	data := ndBytes("d", 2)
+	s.Write(vBG, 2, data, 0)
+	s.Remove(vBG, 3) // stale handle on the old file
+	// the new file must still be there
+	_, err = s.Walk(vBG, 1, 4, "a")
+	vAssert(err == nil, "C18: removing through a stale handle does not remove the file that now has that name")
+	s.Clunk(vBG, 4)
+	s.Clunk(vBG, 2)
+	s.Clunk(vBG, 1)
+	t.vValidate()
+	vReach("c18.stale")
+}
+
+// Concurrent sessions on the shared tree: data-race freedom
+func VerifC18_Race() {
+	fs := vNewServer()
+	s1 := p9p.SFileSys(fs)
+	s2 := p9p.SFileSys(fs)
+	s1.Attach(vBG, 1, p9p.NOFID, "u1", "")
+	s2.Attach(vBG, 1, p9p.NOFID, "u2", "")
+	// a shared file
+	s1.Walk(vBG, 1, 2)
+	s1.Create(vBG, 2, "f", 0644, p9p.ORDWR)
+	s2.Walk(vBG, 1, 2, "f")
+	done := make(chan bool, 2)
+	pair := ndChoice("pair", 4)
+	go func() {
+		switch pair {
+		case 0:
+			s1.Walk(vBG, 1, 3)
+			s1.Create(vBG, 3, "x", 0644, p9p.ORDWR)
+		case 1:
+			s1.Write(vBG, 2, []byte{1}, 0)
+		case 2:
+			s1.Remove(vBG, 2)
+		case 3:
+			s1.WStat(vBG, 2, p9p.Dir{Mode: 0600, Length: ^uint64(0)})
+		}
+		done <- true
+	}()
+	go func() {
+		switch pair {
+		case 0:
+			s2.Walk(vBG, 1, 3)
+			s2.Create(vBG, 3, "y", 0644, p9p.ORDWR)
+		case 1:
+			s2.Stat(vBG, 2)
+		case 2:
+			s2.Walk(vBG, 1, 4, "f")
+		case 3:
+			s2.Walk(vBG, 1, 4)
+			s2.Open(vBG, 4, p9p.OREAD)
+			s2.Read(vBG, 4, make([]byte, 512), 0)
+		}
+		done <- true
+	}()
+	<-done
+	<-done
+	vReach("c18.race")
+}
+
+func bytesReader(b []byte) *bytes.Reader { return bytes.NewReader(b) }
+
+// A scripted deep history: a fid three levels down is walked with two leading
+// ".." and a name; afterwards the original fid still resolves ".." as before
+// and reference counts balance.
+func VerifC18_DeepDotDot() {
+	t := vNewTree()
+	s := t.sess
+	s.Attach(vBG, 1, p9p.NOFID, "u", "")
+	mk := func(fid p9p.Fid, from p9p.Fid, name string) {
+		_, err := s.Walk(vBG, from, fid)
+		vAssert(err == nil, "C18: clone")
+		_, _, err = s.Create(vBG, fid, name, p9p.DMDIR|0755, p9p.OREAD)
+		vAssert(err == nil, "C18: mkdir "+name)
+	}
+	mk(2, 1, "a")                      // fid2 = /a
+	mk(3, 2, "b")                      // fid3 = /a/b
+	mk(4, 2, "x")                      // fid4 = /a/x
+	s.Clunk(vBG, 4)
+	mk(4, 3, "c")                      // fid4 = /a/b/c
+	_, err := s.Walk(vBG, 3, 5)        // fid5 = /a/b (unopened handle)
+	vAssert(err == nil, "C18: clone b")
+	_, err = s.Walk(vBG, 5, 6, "c")    // fid6 = /a/b/c, unopened, depth 3
+	vAssert(err == nil, "C18: walk to c")
+	q1, err := s.Walk(vBG, 6, 7, "..") // .. of /a/b/c is /a/b
+	vAssert(err == nil && len(q1) == 1, "C18: .. from depth 3")
+	bq := q1[0]
+	_, err = s.Walk(vBG, 6, 8, "..", "..", "x") // /a/x
+	vAssert(err == nil, "C18: two leading .. and a name resolve")
+	q2, err := s.Walk(vBG, 6, 9, "..")
+	vAssert(err == nil && len(q2) == 1 && q2[0].Path == bq.Path, "C18: walks (including '..') of a fid are not disturbed by earlier walks from it")
+	for f := p9p.Fid(1); f <= 9; f++ {
+		s.Clunk(vBG, f)
+	}
+	t.vValidate()
+	vReach("c18.deep")
+}
